@@ -1,3 +1,5 @@
+#[cfg(nervusdb_verif)]
+use super::verif_clock as chrono;
 use super::{
     EdgeKey, Error, ExternalId, GraphSnapshot, InternalNodeId, NodeValue, PathElement, Pattern,
     Plan, RelationshipValue, Result, Row, UNLABELED_LABEL_ID, Value, WriteableGraph,
